@@ -232,6 +232,40 @@ pub fn family(wtm: bool, men: &[(usize, u8)], with_rights: bool, with_ep: bool, 
     p
 }
 
+/// Castling family: the mover's king and both rooks stand on their home squares (concrete), castling
+/// rights of the mover are symbolic, the opposing king and the opposing men of `opp` (kinds) stand on
+/// symbolic squares.
+pub fn castle_family(wtm: bool, opp: &[u8], tag: &str) -> Pos {
+    let us = if wtm { 0 } else { 1 };
+    let them = 1 - us;
+    let base: u8 = if wtm { 0 } else { 56 };
+    let mut bb = [[0u64; 6]; 2];
+    bb[us][K] = bit(base + 4);
+    bb[us][R] = bit(base) | bit(base + 7);
+    let mut occ = bb[us][K] | bb[us][R];
+    let ek: u8 = kani::any();
+    kani::assume(ek < 64 && occ & bit(ek) == 0);
+    bb[them][K] = bit(ek);
+    occ |= bit(ek);
+    let mut i = 0;
+    while i < opp.len() {
+        let s: u8 = kani::any();
+        kani::assume(s < 64 && occ & bit(s) == 0);
+        if opp[i] == 1 {
+            kani::assume(s >= 8 && s < 56);
+        }
+        occ |= bit(s);
+        bb[them][(opp[i] - 1) as usize] |= bit(s);
+        i += 1;
+    }
+    let mut p = Pos { bb, wtm, rights: [false; 4], ep: NO_SQ, half: 0, full: 1 };
+    p.rights[2 * us] = kani::any();
+    p.rights[2 * us + 1] = kani::any();
+    kani::assume(legal_position(&p));
+    print_pos(tag, &p);
+    p
+}
+
 pub fn any_mv() -> Mv {
     let m = Mv { from: kani::any(), to: kani::any(), promo: kani::any() };
     kani::assume(m.from < 64 && m.to < 64 && m.promo <= 5 && m.promo != 1);
